@@ -15,7 +15,7 @@ from vlib import ToolError
 ENV_WAIT_MS = 20000     # bound for "the environment did not answer" (tool error, never a violation)
 IGNORE_WAIT_MS = 400    # how long the dialer is watched when the model says it gets no response
 
-ALL_ACTIONS = ["BeforeConnect", "BeforeDone", "Precheck", "Incoming", "Filter", "RetryRoundTrip", "Handshake", "CAfter",
+ALL_ACTIONS = ["ClosedCheck", "BeforeConnect", "BeforeDone", "Precheck", "Incoming", "Filter", "RetryRoundTrip", "Handshake", "CAfter",
                "CEstablished", "Dispatch", "SAfter", "HandlerAccept", "ServerLost", "HandlerSees", "ClientSees"]
 
 
@@ -34,7 +34,8 @@ def short(s):
     f = s["filt"]
     hk = lambda hs: "[" + ",".join("%s/%s" % (h["before"], h["after"]) for h in hs) + "]"
     return "reg={%s} offers=%s%s filter=%s dialer_hooks=%s acceptor_hooks=%s" % (
-        ",".join(sorted(s["reg"])), "+".join(repr(o) for o in s["offers"]), " SELF" if s["self"] else "",
+        ",".join(sorted(s["reg"])), "+".join(repr(o) for o in s["offers"]),
+        (" SELF" if s["self"] else "") + (" CLOSED" if s.get("closed") else ""),
         ("%s/%s" % (f["v1"], f["v2"])) if f["on"] else "none", hk(s["ch"]), hk(s["sh"]))
 
 
@@ -71,7 +72,8 @@ def sample_full(seed, n):
     rnd = random.Random(seed)
     seen, out = set(), []
     while len(out) < n:
-        s = {"reg": rnd.choice(regs), "offers": rnd.choice(offers), "self": rnd.random() < 0.1, "filt": rnd.choice(filts),
+        s = {"reg": rnd.choice(regs), "offers": rnd.choice(offers), "self": rnd.random() < 0.1, "closed": rnd.random() < 0.04,
+             "filt": rnd.choice(filts),
              "ch": rnd.choice(chs), "sh": rnd.choice(shs)}
         k = skey(s)
         if k not in seen:
